@@ -1,2 +1,2 @@
 SPECIFICATION TSpec
-INVARIANTS SOne SGroundTruth SAct SReply SResp SClient SClientLog SNoStray SKey
+INVARIANTS SOne SGroundTruth SAct SReply SResp SClient SClientLog SNoStray SKey SFKey
